@@ -838,6 +838,12 @@ func freshRandom(p *Prog, a *Analysis, fc *FuncCtx, buf ssa.Value, use *ssa.Call
 						}
 						continue
 					}
+					// a helper (also a local function literal) that does nothing with the buffer but that fill and hands the
+					// error back: fillRandom := func(buf []byte) error { _, err := io.ReadFull(RandReader, buf); return err }
+					if isRegion && randomFillHelper(fc, y, v) {
+						fill = y
+						continue
+					}
 					if bi, ok := y.Call.Value.(*ssa.Builtin); ok {
 						if bi.Name() == "copy" && y.Call.Args[0] == v && (isRegion || v == ssa.Value(ms)) {
 							bad = "overwritten by copy()"
@@ -873,8 +879,7 @@ func freshRandom(p *Prog, a *Analysis, fc *FuncCtx, buf ssa.Value, use *ssa.Call
 		if bad != "" {
 			return "", "the buffer is " + bad
 		}
-		nm := "isnil(" + fc.AP(fill) + "#1)"
-		if !(B.HasVar(nm) && fc.Implied(ub, B.Var(nm))) {
+		if !fillSucceeded(fc, fill, ub) {
 			return "", "the buffer is used although reading the random source may have failed"
 		}
 		return fc.AP(x.Len), ""
@@ -887,8 +892,7 @@ func freshRandom(p *Prog, a *Analysis, fc *FuncCtx, buf ssa.Value, use *ssa.Call
 		if bad != "" {
 			return "", "the buffer is " + bad
 		}
-		nm := "isnil(" + fc.AP(fill) + "#1)"
-		if !(B.HasVar(nm) && fc.Implied(ub, B.Var(nm))) {
+		if !fillSucceeded(fc, fill, ub) {
 			return "", "the buffer is used although reading the random source may have failed"
 		}
 		return fc.AP(x.High), ""
@@ -1179,4 +1183,68 @@ func nameOnlyUse(in ssa.Instruction) bool {
 		}
 	}
 	return true
+}
+
+// fillSucceeded: block ub is reached only when the fill reported no error (the error result of io.ReadFull, or the only
+// result of a fill helper, read through the helper).
+func fillSucceeded(fc *FuncCtx, fill *ssa.Call, ub *ssa.BasicBlock) bool {
+	B := fc.A.B
+	if fill.Call.Signature().Results().Len() == 1 {
+		return fc.Implied(ub, B.Not(fc.NonNil(fill)))
+	}
+	nm := "isnil(" + fc.AP(fill) + "#1)"
+	return B.HasVar(nm) && fc.Implied(ub, B.Var(nm))
+}
+
+// randomFillHelper: call hands buf to an unexported module function or local function literal whose body fills that
+// parameter with io.ReadFull from the package's RandReader, uses it for nothing else, and returns that call's error.
+func randomFillHelper(fc *FuncCtx, call *ssa.Call, buf ssa.Value) bool {
+	sc := call.Call.StaticCallee()
+	if sc == nil || len(sc.Blocks) == 0 || !fc.A.P.InLibrary(sc) || (sc.Object() != nil && sc.Object().Exported()) {
+		return false
+	}
+	res := sc.Signature.Results()
+	if res.Len() != 1 || types.TypeString(res.At(0).Type(), nil) != "error" {
+		return false
+	}
+	k := -1
+	for i, a := range call.Call.Args {
+		if a == buf {
+			k = i
+		}
+	}
+	// (a function literal is called with its own parameters only: the captured variables are not arguments)
+	if k < 0 || k >= len(sc.Params) {
+		return false
+	}
+	prm := sc.Params[k]
+	if prm.Referrers() == nil {
+		return false
+	}
+	var fill *ssa.Call
+	for _, rf := range *prm.Referrers() {
+		switch y := rf.(type) {
+		case *ssa.DebugRef:
+		case *ssa.Call:
+			if !calleeIs(y, "io.ReadFull") || y.Call.Args[1] != ssa.Value(prm) || fill != nil {
+				return false
+			}
+			fill = y
+		default:
+			return false
+		}
+	}
+	if fill == nil {
+		return false
+	}
+	sub := fc.A.Ctx(sc)
+	if !strings.HasSuffix(sub.AP(outOfLiteral(fill.Call.Args[0])), "RandReader") && !strings.HasSuffix(sub.AP(fill.Call.Args[0]), "RandReader") {
+		return false
+	}
+	ret := singleReturn(sc)
+	if ret == nil {
+		return false
+	}
+	ex, ok := Resolve(ret.Results[0]).(*ssa.Extract)
+	return ok && ex.Tuple == ssa.Value(fill) && ex.Index == 1
 }
